@@ -1298,7 +1298,10 @@ def ob_collector_frames(chk: Check) -> None:
             ob.status = UNDECIDED
             ob.detail = (ob.detail or "no discharge rule applies (not constant during the loop, not reset per statement, not a "
                          "balanced flag)")
-            decide_by_native(ob, N.positions, "visit::dependencies-depend-on-position")
+            # the frame analysis cannot show `a` position independent: search natively over hand-built scripts that
+            # exercise THIS attribute (all written orders, real visit / create_dag / semantic_analysis); only a
+            # reproduced failure is a violation, otherwise the obligation stays undecided
+            decide_by_native(ob, N.positions_for(a), f"visit::dependencies-depend-on-position::{a}")
             undischarged.append(a)
     ob = chk.ob(f"{f}::collectors-read-nothing-else", f,
                 "the collectors read no module global / class attribute that is written anywhere in the DAG module, and the "
